@@ -397,11 +397,17 @@ def run(tier, replay=None):
     got, want, _ = run_attack([{'a': 'ImpMsg2'}, {'a': 'ImpMsg4', 'forge': 'control-with-the-real-psk'}], {'stI': 'DELETED', 'stR': 'NONE', 'installed': []}, True, True, 'psk',
                               common.SEED, old_auth)
     if not (got and got['stI'] and got['instI']):
-        raise common.MachineryError(f'impersonation harness: a response authenticated with the real credential is not accepted ({got}) - the forged ones prove nothing')
+        # the harness's key schedule and AUTH computation are exercised by every other comparison of this check (the monitor recomputes the AUTH payloads of
+        # real handshakes): an initiator that refuses a response authenticated exactly as RFC 7296 2.15 says verifies under something else than the configured credential
+        v.violation(f'a response that an independent implementation authenticated with the responder\'s configured secret is refused by the initiator ({got}): '
+                    'it does not verify under the configured credential of the configured peer', {'got': got}, signature={'component': 'control:initiator-refuses-the-real-credential'})
+        return v.finish()
     got, want, _ = run_attack([{'a': 'ImpIMsg1'}, {'a': 'ImpIMsg3', 'forge': 'control-with-the-real-psk'}], {'stI': 'INIT_REQ_SENT', 'stR': 'DELETED', 'installed': []}, True, True, 'psk',
                               common.SEED, old_auth)
     if not (got and got['stR'] and got['instR']):
-        raise common.MachineryError(f'impersonation harness: a request authenticated with the real credential is not accepted ({got}) - the forged ones prove nothing')
+        v.violation(f'a request that an independent implementation authenticated with the initiator\'s configured secret is refused by the responder ({got}): '
+                    'it does not verify under the configured credential of the configured peer', {'got': got}, signature={'component': 'control:responder-refuses-the-real-credential'})
+        return v.finish()
     outcomes = {}
     for cred_i, cred_r in ((True, True), (False, True), (True, False), (False, False)):
         res = tlc(cfg(cred_i=cred_i, cred_r=cred_r))
